@@ -99,6 +99,16 @@ def attr_cases(tier: str):
                 for res in ("t" * n, "a" * n, "m" * n, ("mt" * n)[:n]):
                     for is_async in (False, True):
                         yield dict(n=n, es=es, fail={f: "V"}, res=res, mc=2, is_async=is_async, noloc=False, batch=False, ties=0, profile=True)
+    # the failing node was reconfigured (config_from_dict, before or after a first successful... here: first call) - it is still named, with its location
+    for n in (1, 2, 3):
+        for es in shapes(n):
+            if len(es) > 1:
+                continue
+            for f in range(n):
+                for via in ("id", "tag"):
+                    for res in ("t" * n, ("ma" * n)[:n]):
+                        yield dict(n=n, es=es, fail={f: "V"}, res=res, seq=(False,) * n, prio=(0,) * n, mc=2, is_async=False, noloc=False, batch=False, ties=0,
+                                   conf={"via": via, "init": {"seq": [False] * n, "prio": [3] * n}, "after_warm": False})
 
 
 FORMS_SRC = '''
@@ -264,7 +274,11 @@ def run_shard(tier, k, n, acc):
     its = [cases(tier), early_cases(tier), attr_cases(tier), cross_families(tier)]
     if tier != "quick":
         its.append(foreign_quick_cases("c14"))
-    for c in shard_iter(itertools.chain([dict(special="forms"), dict(special="returned_exc")], *its), k, n, acc):
+    from . import c17
+    for c in shard_iter(itertools.chain([dict(special="forms"), dict(special="returned_exc")], c17.failing_subset(), *its), k, n, acc):
+        if c.get("kind") == "gather":
+            c17.run_gather(acc, c)  # a failing await next to a sibling await of the same AsyncDAG: only the failing one raises
+            continue
         if c.get("special") == "forms":
             forms_case(acc, c)
             continue
@@ -275,6 +289,12 @@ def run_shard(tier, k, n, acc):
 
 
 def replay(v):
+    if v["case"].get("kind") == "gather":
+        from ..acc import Acc
+        from . import c17
+        a = Acc(ID, 0, 1, 600)
+        c17.run_gather(a, v["case"], only_prefix=v["prefix"])
+        return a.violations, None
     if v["case"].get("special") == "returned_exc":
         from ..acc import Acc
         a = Acc(ID, 0, 1, 600)
